@@ -178,7 +178,7 @@ PROPS = {
     'C06': strat_prop('C06'),
     'C07': dict(strat_prop('C07', ['tsops']), compare=compare_any, nontrivial=any_nontrivial, rule=RUN_RULE + TSOPS_RULE),
     'C08': strat_prop('C08'),
-    'C09': strat_prop('C09'),
+    'C09': dict(strat_prop('C09', ['faults']), rule=RUN_RULE + ' || bounded-exhaustive fault scripts: ICMP and TCP, 2 rounds, every combination of send outcome {sent, transient failure, address in use (TCP), fatal} and receive outcome {timeout, genuine response, target reply, fatal, duplicate} over the first 3 (thorough: 5) calls', exhaustive={'quick': False, 'thorough': False}),
     'C13': dict(
         crates=['hcore'], modes=[('hcore', 'c13')],
         nontrivial=c13_nontrivial,
